@@ -3,12 +3,13 @@
 import json
 import math
 import random
+import re
 import time
 from typing import Any, Dict, Optional
 
 from .parser import Parser
 from .compiler import Compiler
-from .vm import VM
+from .vm import VM, JS_WHITESPACE
 from .values import (
     UNDEFINED,
     NULL,
@@ -24,6 +25,11 @@ from .values import (
     as_double,
 )
 from .errors import JSError, MemoryLimitError, TimeLimitError
+
+# [+-] Infinity | digits [. digits] [exponent] | . digits [exponent]; the exponent only if it has digits
+_PARSE_FLOAT_PREFIX = re.compile(
+    r"[+-]?(?:Infinity|(?:[0-9]+\.?[0-9]*|\.[0-9]+)(?:[eE][+-]?[0-9]+)?)"
+)
 
 
 class Context:
@@ -752,79 +758,11 @@ class Context:
                 return False
             return x == int(x)
 
-        def parseInt_fn(*args):
-            s = to_string(args[0]) if args else ""
-            radix = int(to_number(args[1])) if len(args) > 1 else 10
-            if radix == 0:
-                radix = 10
-            s = s.strip()
-            if not s:
-                return float("nan")
-            # Handle leading sign
-            sign = 1
-            if s.startswith("-"):
-                sign = -1
-                s = s[1:]
-            elif s.startswith("+"):
-                s = s[1:]
-            # Handle 0x prefix for hex
-            if s.startswith("0x") or s.startswith("0X"):
-                radix = 16
-                s = s[2:]
-            # Parse digits
-            result = 0
-            found = False
-            for ch in s:
-                if ch.isdigit():
-                    digit = ord(ch) - ord("0")
-                elif ch.isalpha():
-                    digit = ord(ch.lower()) - ord("a") + 10
-                else:
-                    break
-                if digit >= radix:
-                    break
-                result = result * radix + digit
-                found = True
-            if not found:
-                return float("nan")
-            return sign * result
-
-        def parseFloat_fn(*args):
-            s = to_string(args[0]) if args else ""
-            s = s.strip()
-            if not s:
-                return float("nan")
-            # Find the longest valid float prefix
-            i = 0
-            has_dot = False
-            has_exp = False
-            if s[i] in "+-":
-                i += 1
-            while i < len(s):
-                if s[i].isdigit():
-                    i += 1
-                elif s[i] == "." and not has_dot:
-                    has_dot = True
-                    i += 1
-                elif s[i] in "eE" and not has_exp:
-                    has_exp = True
-                    i += 1
-                    if i < len(s) and s[i] in "+-":
-                        i += 1
-                else:
-                    break
-            if i == 0:
-                return float("nan")
-            try:
-                return float(s[:i])
-            except ValueError:
-                return float("nan")
-
         num_constructor.set("isNaN", isNaN_fn)
         num_constructor.set("isFinite", isFinite_fn)
         num_constructor.set("isInteger", isInteger_fn)
-        num_constructor.set("parseInt", parseInt_fn)
-        num_constructor.set("parseFloat", parseFloat_fn)
+        num_constructor.set("parseInt", self._global_parseint)  # the same function objects as the globals
+        num_constructor.set("parseFloat", self._global_parsefloat)
 
         return num_constructor
 
@@ -1122,79 +1060,46 @@ class Context:
         return not (math.isnan(x) or math.isinf(x))
 
     def _global_parseint(self, *args):
-        """Global parseInt."""
-        s = to_string(args[0]) if args else ""
-        radix = int(to_number(args[1])) if len(args) > 1 else 10
+        """Global parseInt (ECMA-262 19.2.5)."""
+        s = to_string(args[0]) if args else "undefined"
+        s = s.lstrip(JS_WHITESPACE)
+        negative = s.startswith("-")
+        if s[:1] in ("+", "-"):
+            s = s[1:]
+        # ToInt32(radix); 0 (also from undefined / NaN) means "decide from the prefix"
+        radix = to_number(args[1]) if len(args) > 1 else 0
+        radix = 0 if math.isnan(radix) or math.isinf(radix) else int(radix) & 0xFFFFFFFF
+        if radix >= 0x80000000:
+            radix -= 0x100000000
+        strip_prefix = radix in (0, 16)
         if radix == 0:
             radix = 10
-        s = s.strip()
-        if not s:
+        elif radix < 2 or radix > 36:
             return float("nan")
-        sign = 1
-        if s.startswith("-"):
-            sign = -1
-            s = s[1:]
-        elif s.startswith("+"):
-            s = s[1:]
-        if s.startswith("0x") or s.startswith("0X"):
-            radix = 16
+        if strip_prefix and s[:2] in ("0x", "0X"):
             s = s[2:]
-        result = 0
-        found = False
-        for ch in s:
-            if ch.isdigit():
-                digit = ord(ch) - ord("0")
-            elif ch.isalpha():
-                digit = ord(ch.lower()) - ord("a") + 10
-            else:
-                break
-            if digit >= radix:
-                break
-            result = result * radix + digit
-            found = True
-        if not found:
+            radix = 16
+        alphabet = "0123456789abcdefghijklmnopqrstuvwxyz"[:radix]
+        end = 0
+        while end < len(s) and s[end].lower() in alphabet and s[end].isascii():
+            end += 1
+        if end == 0:
             return float("nan")
-        return sign * result
+        result = as_double(int(s[:end], radix))
+        if negative:
+            return -result if result != 0 else -0.0
+        return result
 
     def _global_parsefloat(self, *args):
-        """Global parseFloat."""
-        s = to_string(args[0]) if args else ""
-        s = s.strip()
-        if not s:
+        """Global parseFloat (ECMA-262 19.2.4): the longest prefix that is a StrDecimalLiteral."""
+        s = to_string(args[0]) if args else "undefined"
+        m = _PARSE_FLOAT_PREFIX.match(s.lstrip(JS_WHITESPACE))
+        if not m:
             return float("nan")
-
-        # Handle Infinity
-        if s.startswith("Infinity"):
-            return float("inf")
-        if s.startswith("-Infinity"):
-            return float("-inf")
-        if s.startswith("+Infinity"):
-            return float("inf")
-
-        i = 0
-        has_dot = False
-        has_exp = False
-        if s[i] in "+-":
-            i += 1
-        while i < len(s):
-            if s[i].isdigit():
-                i += 1
-            elif s[i] == "." and not has_dot:
-                has_dot = True
-                i += 1
-            elif s[i] in "eE" and not has_exp:
-                has_exp = True
-                i += 1
-                if i < len(s) and s[i] in "+-":
-                    i += 1
-            else:
-                break
-        if i == 0:
-            return float("nan")
-        try:
-            return float(s[:i])
-        except ValueError:
-            return float("nan")
+        text = m.group(0)
+        if text.endswith("Infinity"):
+            return float("-inf") if text[0] == "-" else float("inf")
+        return float(text)
 
     def eval(self, code: str) -> Any:
         """Evaluate JavaScript code and return the result.
